@@ -341,26 +341,53 @@ Proof.
     simpl in H2. destruct (is_ok o2); [exact H2|right; eexists; reflexivity].
 Qed.
 
-Lemma run_gops_entries : forall ops c hs l, run_gops c ops hs = Some l -> Forall entry_ok l.
+(* ---------- the hash conf: what the loader accepts never makes getHashKey dereference nil ---------- *)
+Lemma check_hc_ok : forall sp strat hk stp st hc, hash_conf_check sp strat hk stp st = Some hc -> hc_ok hc = true.
 Proof.
-  induction ops as [|v rest IH]; intros c hs l H; simpl in H.
+  intros sp strat hk stp st hc H. unfold hash_conf_check in H.
+  destruct (negb _); [discriminate|].
+  destruct (((if sp =? 0 then 1 else strat) =? 0) || ((if sp =? 0 then 1 else strat) =? 2)) eqn:E1; simpl in H.
+  - destruct ((hk =? 2) || (hk =? 3)) eqn:E2; simpl in H; [|discriminate]. inversion H; subst. unfold hc_ok. rewrite E1. simpl.
+    destruct (hk =? 0) eqn:E0; [|reflexivity]. apply Z.eqb_eq in E0. subst. discriminate.
+  - inversion H; subst. unfold hc_ok. rewrite E1. reflexivity.
+Qed.
+Lemma hc_default_ok : hc_ok hc_default = true.
+Proof. reflexivity. Qed.
+Theorem gslb_hc_total : forall hc algo h retry sc c, hc_ok hc = true ->
+  returned (gres (gslb_balance_hc hc algo h retry sc c)).
+Proof.
+  intros [[s hk] sticky] algo h retry sc c Hok. unfold gslb_balance_hc, hc_ok in *.
+  destruct (retry >? grmax c + gcross c); [right; eexists; reflexivity|].
+  destruct (((s =? 0) || (s =? 2)) && (hk =? 0)); [discriminate|]. apply gslb_total.
+Qed.
+Lemma gslb_hc_wf : forall hc algo h retry sc c, res_wf (gres (gslb_balance_hc hc algo h retry sc c)).
+Proof.
+  intros [[s hk] sticky] algo h retry sc c. unfold gslb_balance_hc.
+  destruct (retry >? grmax c + gcross c); [exact I|].
+  destruct (((s =? 0) || (s =? 2)) && (hk =? 0)); [exact I|]. apply returned_wf. apply gslb_total.
+Qed.
+
+Lemma run_gops_entries : forall ops hc c hs l, run_gops hc c ops hs = Some l -> Forall entry_ok l.
+Proof.
+  induction ops as [|v rest IH]; intros hc c hs l H; simpl in H.
   - inversion H. constructor.
   - destruct (dec_gop v) as [o|]; [|discriminate].
     destruct (negb match o with GBack cb => wf_gback cb c | _ => true end); [discriminate|].
-    destruct (gstep c o _) as [[c' obs] x] eqn:Es.
+    destruct (gstep hc c o _) as [[[hc' c'] obs] x] eqn:Es.
     destruct (negb (wf_gstate c')); [discriminate|].
     assert (Hent : entry_ok (obs, x)).
-    { destruct o as [algo retry sc|id b|id d|g|cb]; simpl in Es.
-      - pose proof (gslb_total algo (hd 0 hs) retry sc c) as Hr. unfold gres in Hr.
-        destruct (gslb_balance algo (hd 0 hs) retry sc c) as [[[c2 y] sub] rt]. simpl in Hr. inversion Es; subst. simpl.
-        split; [apply returned_wf; exact Hr|]. eexists. eexists. eexists. reflexivity.
+    { destruct o as [algo retry sc|id b|id d|g|cb|sp strat hk stp st]; simpl in Es.
+      - pose proof (gslb_hc_wf hc algo (hd 0 hs) retry sc c) as Hr. unfold gres in Hr.
+        destruct (gslb_balance_hc hc algo (hd 0 hs) retry sc c) as [[[c2 y] sub] rt]. simpl in Hr. inversion Es; subst. simpl.
+        split; [exact Hr|]. eexists. eexists. eexists. reflexivity.
       - inversion Es; subst. reflexivity.
       - inversion Es; subst. reflexivity.
       - destruct (greload g c) as [c2 e]. inversion Es; subst. reflexivity.
-      - inversion Es; subst. reflexivity. }
+      - inversion Es; subst. reflexivity.
+      - destruct (hash_conf_check sp strat hk stp st); inversion Es; subst; reflexivity. }
     destruct (match x with Some (_, RErr c99) => c99 =? 99 | _ => false end).
     { inversion H; subst. constructor; [exact Hent|constructor]. }
-    destruct (run_gops c' rest _) as [l'|] eqn:E; [|discriminate]. inversion H; subst.
+    destruct (run_gops hc' c' rest _) as [l'|] eqn:E; [|discriminate]. inversion H; subst.
     constructor; [exact Hent|eapply IH; exact E].
 Qed.
 Theorem model_satisfies_prop : forall i, kf_C05 i = 0 -> prop_C05 i (run_C05 i) = true.
@@ -551,29 +578,32 @@ Proof.
         (destruct (run_ops r' rest _) as [l'|] eqn:E; [|discriminate]; inversion H; subst; simpl; eapply IH; eassumption).
     + destruct (run_ops r' rest _) as [l'|] eqn:E; [|discriminate]. inversion H; subst. simpl. eapply IH; eassumption.
 Qed.
-Lemma run_gops_good : forall ops c hs l, run_gops c ops hs = Some l -> first_bad l = 0.
+Lemma run_gops_good : forall ops hc c hs l, hc_ok hc = true -> run_gops hc c ops hs = Some l -> first_bad l = 0.
 Proof.
-  induction ops as [|v rest IH]; intros c hs l H; simpl in H.
+  induction ops as [|v rest IH]; intros hc c hs l Hok H; simpl in H.
   - inversion H. reflexivity.
   - destruct (dec_gop v) as [o|]; [|discriminate].
     destruct (negb match o with GBack cb => wf_gback cb c | _ => true end); [discriminate|].
-    destruct (gstep c o _) as [[c' obs] x] eqn:Es.
+    destruct (gstep hc c o _) as [[[hc' c'] obs] x] eqn:Es.
     destruct (negb (wf_gstate c')); [discriminate|].
-    assert (Hg : match x with Some (_, y) => good_res y | None => True end).
-    { destruct o as [algo retry sc|id b|id d|g|cb]; simpl in Es.
-      - pose proof (gslb_total algo (hd 0 hs) retry sc c) as Hr. unfold gres in Hr.
-        destruct (gslb_balance algo (hd 0 hs) retry sc c) as [[[c2 y] sub] rt]. simpl in Hr. inversion Es; subst.
-        apply returned_good. exact Hr.
-      - inversion Es; subst. exact I.
-      - inversion Es; subst. exact I.
-      - destruct (greload g c) as [c2 e]. inversion Es; subst. exact I.
-      - inversion Es; subst. exact I. }
+    assert (Hg : hc_ok hc' = true /\ match x with Some (_, y) => good_res y | None => True end).
+    { destruct o as [algo retry sc|id b|id d|g|cb|sp strat hk stp st]; simpl in Es.
+      - pose proof (gslb_hc_total hc algo (hd 0 hs) retry sc c Hok) as Hr. unfold gres in Hr.
+        destruct (gslb_balance_hc hc algo (hd 0 hs) retry sc c) as [[[c2 y] sub] rt]. simpl in Hr. inversion Es; subst.
+        split; [exact Hok|apply returned_good; exact Hr].
+      - inversion Es; subst. split; [exact Hok|exact I].
+      - inversion Es; subst. split; [exact Hok|exact I].
+      - destruct (greload g c) as [c2 e]. inversion Es; subst. split; [exact Hok|exact I].
+      - inversion Es; subst. split; [exact Hok|exact I].
+      - destruct (hash_conf_check sp strat hk stp st) as [hc2|] eqn:Ec; inversion Es; subst;
+          (split; [|exact I]); [eapply check_hc_ok; exact Ec|exact Hok]. }
+    destruct Hg as [Hok' Hg].
     assert (Hfb : forall l', first_bad l' = 0 -> first_bad ((obs, x) :: l') = 0).
     { intros l' Hl. simpl. destruct x as [[a y]|]; [|exact Hl]. destruct Hg as [Hp Hf]. destruct y; try congruence; exact Hl. }
     destruct (match x with Some (_, RErr c99) => c99 =? 99 | _ => false end).
     { inversion H; subst. apply Hfb. reflexivity. }
-    destruct (run_gops c' rest _) as [l'|] eqn:E; [|discriminate]. inversion H; subst.
-    apply Hfb. eapply IH; exact E.
+    destruct (run_gops hc' c' rest _) as [l'|] eqn:E; [|discriminate]. inversion H; subst.
+    apply Hfb. eapply IH; [exact Hok'|exact E].
 Qed.
 Theorem kf_zero : forall i, kf_C05 i = 0.
 Proof.
@@ -583,7 +613,7 @@ Proof.
   | match ?x with _ => _ end = _ => destruct x eqn:?; try discriminate
   | (if ?x then _ else _) = _ => destruct x eqn:?; try discriminate
   end;
-  first [eapply run_ops_good; [apply init_ok|exact E] | eapply run_gops_good; exact E].
+  first [eapply run_ops_good; [apply init_ok|exact E] | eapply run_gops_good; [apply hc_default_ok|exact E]].
 Qed.
 Theorem model_satisfies_prop_all : forall i, prop_C05 i (run_C05 i) = true.
 Proof. intros i. apply model_satisfies_prop. apply kf_zero. Qed.
